@@ -44,6 +44,11 @@ fn q4(a: &[u8; 16]) -> [u8; 4] {
 }
 
 fn judge(t: &Tuple, rec: &mut Recorder) {
+    judge_ordered(t, false, rec)
+}
+
+/// `v2_first`: convert the socket-address pair for protocol version 2 before version 1.
+fn judge_ordered(t: &Tuple, v2_first: bool, rec: &mut Recorder) {
     let case = format!("tuple:{}", t.text());
     rec.case(hash_bytes(case.as_bytes()), t.src != t.dst && t.sp != t.dp);
     rec.class(if t.v6 { "oracle:ipv6-tuple" } else { "oracle:ipv4-tuple" }, || case.clone());
@@ -93,8 +98,13 @@ fn judge(t: &Tuple, rec: &mut Recorder) {
             // socket address pairs
             let sa = SocketAddr::V4(SocketAddrV4::new(Ipv4Addr::from(s), t.sp));
             let da = SocketAddr::V4(SocketAddrV4::new(Ipv4Addr::from(d), t.dp));
-            let c1 = v1::Addresses::from((sa, da));
-            let c2 = v2::Addresses::from((sa, da));
+            let (c1, c2) = if v2_first {
+                let c2 = v2::Addresses::from((sa, da));
+                (v1::Addresses::from((sa, da)), c2)
+            } else {
+                let c1 = v1::Addresses::from((sa, da));
+                (c1, v2::Addresses::from((sa, da)))
+            };
             n += 2;
             if a1(&c1) != want {
                 bad.push(("socket-pair:v1".into(), format!("{:?}", c1)));
@@ -138,8 +148,13 @@ fn judge(t: &Tuple, rec: &mut Recorder) {
             }
             let sa = SocketAddr::V6(SocketAddrV6::new(Ipv6Addr::from(s), t.sp, t.flow.0, t.scope.0));
             let da = SocketAddr::V6(SocketAddrV6::new(Ipv6Addr::from(d), t.dp, t.flow.1, t.scope.1));
-            let c1 = v1::Addresses::from((sa, da));
-            let c2 = v2::Addresses::from((sa, da));
+            let (c1, c2) = if v2_first {
+                let c2 = v2::Addresses::from((sa, da));
+                (v1::Addresses::from((sa, da)), c2)
+            } else {
+                let c1 = v1::Addresses::from((sa, da));
+                (c1, v2::Addresses::from((sa, da)))
+            };
             n += 2;
             if a1(&c1) != want {
                 bad.push(("socket-pair:v1".into(), format!("{:?}", c1)));
@@ -225,6 +240,41 @@ impl Monitor for C19 {
             }
         };
         judge(&t, rec);
+        // one tuple in four is followed by related tuples on the same thread (conversions are
+        // functions of their arguments: nothing may carry over from the previous call)
+        if !spec::engine::small() && spec::engine::with_history(idx, 4) {
+            let last = if t.v6 { 12 } else { 0 };
+            let delta = (rng.next() as u32) | 1;
+            let db = delta.to_be_bytes();
+            // (1) same addresses, other ports - version 2 converted first
+            let mut a = t.clone();
+            a.sp = t.sp.wrapping_add(1 + rng.below(1000) as u16);
+            a.dp = t.dp ^ 0x0101;
+            judge_ordered(&a, true, rec);
+            // (2) destination address and ports changed by the same 32-bit delta (any xor-fold of
+            //     the endpoints stays the same)
+            let mut b = t.clone();
+            for k in 0..4 {
+                b.dst[last + k] ^= db[k];
+            }
+            b.sp ^= (delta >> 16) as u16;
+            b.dp ^= delta as u16;
+            judge(&b, rec);
+            // (3) the same with the source address
+            let mut c = t.clone();
+            for k in 0..4 {
+                c.src[last + k] ^= db[k];
+            }
+            c.sp ^= delta as u16;
+            c.dp ^= (delta >> 16) as u16;
+            judge_ordered(&c, true, rec);
+            // (4) endpoints exchanged
+            let mut d = t.clone();
+            std::mem::swap(&mut d.src, &mut d.dst);
+            std::mem::swap(&mut d.sp, &mut d.dp);
+            judge(&d, rec);
+            judge_ordered(&t, true, rec);
+        }
     }
     fn floor(&self, _tier: Tier) -> Vec<&'static str> {
         vec!["oracle:ipv4-tuple", "oracle:ipv6-tuple", "oracle:identical-endpoints", "oracle:both-ipv4-mapped"]
